@@ -249,3 +249,43 @@ def peer_ends_acceptor(p: int, how: int, source: int, reason: int) -> bool:
         ok = ok and sent[1:] == []
     deep(ok and p == 2 and how == 0)
     return ok
+
+
+# ------------------------------------------------------------------------------------------------
+# through the real provider: the peer's abort / release arrives while local traffic is queued
+# ------------------------------------------------------------------------------------------------
+
+@cond(bounds='real provider loop (stepped, simulated transport), established association, both roles: the peer\'s A-ABORT '
+             'with symbolic (source, reason) - or its A-RELEASE-RQ - becomes readable in the same poll turn in which a '
+             'P-DATA request of the local user is queued (symbolic: queued or not): the first thing handed to the user '
+             'is that PDU, fields unchanged, and maps to the corresponding library error',
+      family={'role': ['acc_sta6', 'req_sta6']}, timeout=180)
+def peer_ends_during_local_traffic(source: int, reason: int, release: bool, busy: bool) -> bool:
+    """
+    pre: 0 <= source <= 255 and 0 <= reason <= 255
+    post: _
+    """
+    from vt.harness import c05
+    st, r, ok = c05.start(fam('role'))
+    if not ok:
+        return False
+    st.delta()
+    raw = pdu.AReleaseRqPDU().encode() if release else bytes([7, 0, 0, 0, 0, 4, 0, 0, source, reason])
+    st.sock.inbox.append(raw)
+    if busy:
+        st.prov.from_service_user.put(c05.user_prim('u4'))
+    st.run()
+    sent, ind = st.delta()
+    if not ind:
+        return False
+    first = ind[0]
+    err = None
+    try:
+        asceprovider.Association._handle_errors(first)
+    except exceptions.AssociationAbortedError as e:
+        err = ('abort', e.source, e.reason_diag)
+    except exceptions.AssociationReleasedError:
+        err = ('release',)
+    ok = err == (('release',) if release else ('abort', source, reason))
+    deep(ok and busy and not release and source == 2 and reason == 6)
+    return ok
